@@ -17,7 +17,7 @@ import (
 	"verif/harness/ev"
 )
 
-var rec = ev.New("C11", "real-runtime Fatal path: a re-executed child logs N messages through a diode.Writer (waiter or poller mode, optionally wrapped in a FilteredLevelWriter / MultiLevelWriter) and then calls Logger.Fatal; the parent requires exit status 1 and all N messages plus the fatal message on the child's stdout, in order")
+var rec = ev.New("C11", "real-runtime Fatal path: a re-executed child logs N messages through a diode.Writer (waiter or poller mode, optionally wrapped in a FilteredLevelWriter / MultiLevelWriter) and then calls Logger.Fatal (the fatal event written, or filtered out by a child logger's level, the global level or a rejecting sampler); the parent requires exit status 1 and all N messages plus the fatal message on the child's stdout, in order")
 
 func TestMain(m *testing.M) {
 	if c := os.Getenv("VERIF_C11_CHILD"); c != "" {
@@ -50,7 +50,20 @@ func child(c string) {
 	for i := 0; i < n; i++ {
 		l.Info().Int("i", i).Msg("pending")
 	}
-	l.Fatal().Msg("fatal")
+	switch os.Getenv("VERIF_C11_FATAL") {
+	case "child-disabled":
+		// the fatal event itself is filtered out: Fatal still exits, and still drains the ring first
+		q := l.Level(zerolog.Disabled)
+		q.Fatal().Msg("fatal")
+	case "global-disabled":
+		zerolog.SetGlobalLevel(zerolog.Disabled)
+		l.Fatal().Msg("fatal")
+	case "sampled-out":
+		q := l.Sample(&zerolog.BasicSampler{N: 0})
+		q.Fatal().Msg("fatal")
+	default:
+		l.Fatal().Msg("fatal")
+	}
 	fmt.Println("SURVIVED")
 }
 
@@ -59,8 +72,15 @@ func TestFatalDrains(t *testing.T) {
 		for _, wrap := range []string{"plain", "filtered", "multi"} {
 			for _, n := range []int{0, 1, 7, 500, 3000} {
 				for rep := 0; rep < 3; rep++ {
+					// the third repetition of the small cases filters the fatal event out (by a child
+					// logger's level, the global level, a rejecting sampler): nothing is written for
+					// it, but what is already in the ring must still come out before the exit
+					fatalKind := "written"
+					if rep == 2 && n > 0 && n <= 500 {
+						fatalKind = []string{"child-disabled", "global-disabled", "sampled-out"}[(n+len(wrap))%3]
+					}
 					cmd := exec.Command(os.Args[0], "-test.run=^$")
-					cmd.Env = append(os.Environ(), fmt.Sprintf("VERIF_C11_CHILD=%d %s %s", n, mode, wrap), "VERIF_EV_OUT=")
+					cmd.Env = append(os.Environ(), fmt.Sprintf("VERIF_C11_CHILD=%d %s %s", n, mode, wrap), "VERIF_EV_OUT=", "VERIF_C11_FATAL="+fatalKind)
 					var out bytes.Buffer
 					cmd.Stdout = &out
 					cmd.Stderr = &out
@@ -71,7 +91,11 @@ func TestFatalDrains(t *testing.T) {
 					} else if err != nil {
 						t.Fatalf("HARNESS-ERROR: cannot re-execute test binary: %v", err)
 					}
-					key := fmt.Sprintf("%s %s n=%d", mode, wrap, n)
+					key := fmt.Sprintf("%s %s n=%d fatal=%s", mode, wrap, n, fatalKind)
+					wantLines := n + 1
+					if fatalKind != "written" {
+						wantLines = n
+					}
 					rec.Case([]byte(key), n > 0, "fatal-path")
 					lines := strings.Split(strings.TrimSpace(out.String()), "\n")
 					bad := ""
@@ -82,8 +106,8 @@ func TestFatalDrains(t *testing.T) {
 						bad = "Fatal did not exit"
 					case strings.Contains(out.String(), "MISSED"):
 						bad = "messages reported dropped although fewer than the ring size were outstanding"
-					case len(lines) != n+1:
-						bad = fmt.Sprintf("%d lines on stdout, want %d pending + the fatal message", len(lines), n+1)
+					case len(lines) != wantLines:
+						bad = fmt.Sprintf("%d lines on stdout, want %d pending (+ the fatal message unless it is filtered)", len(lines), n)
 					default:
 						for i := 0; i < n; i++ {
 							if !strings.Contains(lines[i], fmt.Sprintf(`"i":%d,`, i)) {
@@ -91,12 +115,12 @@ func TestFatalDrains(t *testing.T) {
 								break
 							}
 						}
-						if bad == "" && !strings.Contains(lines[n], `"level":"fatal"`) {
+						if bad == "" && fatalKind == "written" && !strings.Contains(lines[n], `"level":"fatal"`) {
 							bad = fmt.Sprintf("last line is %q, want the fatal message", lines[n])
 						}
 					}
 					if bad != "" {
-						ev.SaveReplay("C11-fatal", map[string]interface{}{"mode": mode, "wrap": wrap, "n": n})
+						ev.SaveReplay("C11-fatal", map[string]interface{}{"mode": mode, "wrap": wrap, "n": n, "fatal": fatalKind})
 						fmt.Printf("VERIF-FAIL: Fatal path [%s]: %s\n", key, bad)
 						t.Fatalf("[%s] %s; output tail %q", key, bad, tailStr(out.String()))
 					}
